@@ -130,6 +130,7 @@ class Run(object):
         self.in_sched_flush = []      # stack of batch ids between Before and After
         self.uid = 0
         self.leafobjs = []
+        self.yielded_batches = set()  # batches some task yielded as such: their flush is forced by the wait, not chosen by the scheduler
         self.helper_obj = {}          # child task id -> the amap() task through which it is started
         self.callers = []             # who is calling into asynq right now: "direct" (item.value() from a body) / "sync"
         self.debug_bids = {}          # id(DebugBatch) -> batch id
@@ -380,6 +381,17 @@ class Run(object):
             self.last_struct[t].append((u, obj))
             self.leafobjs.append((obj, V("F", u)))
             return obj, V("F", u)
+        if g == "B":
+            # the (pending) batch object of that kind itself: waiting for it computes - i.e. flushes - it on the spot
+            b = self.active_batch.get(s["n"])
+            if b is None:
+                b = VBatch(self, s["n"])
+                self.active_batch[s["n"]] = b
+            self.obj_id[id(b)] = b.bid
+            self.yielded_batches.add(b.bid)
+            self.last_struct[t].append((b.bid, b))
+            self.leafobjs.append((b, V("F", b.bid)))
+            return b, V("F", b.bid)
         if g == "D":
             obj, w = self.dedup_call(t, s["n"])
             self.last_struct[t].append((w, obj))
@@ -977,6 +989,7 @@ class VBatch(BatchBase):
 
     def _on_done(self, _):
         self.run.emit("BatchDone", b=self.bid, a=0 if self._error is None else 1)
+        self.run._done(self.bid, self)          # a batch is a future too (a task may yield the batch object itself)
 
     def _try_switch_active_batch(self):
         if self.run.active_batch.get(self.kind) is self:
@@ -1010,6 +1023,8 @@ class VBatch(BatchBase):
     def _flush(self):
         run = self.run
         by = 0 if (run.callers and run.callers[-1] == "direct") else 1
+        if self.bid in run.yielded_batches and not (run.in_sched_flush and run.in_sched_flush[-1] == self.bid):
+            by = 0      # computed inline because a task waits for the batch object itself
         items = list(self.items)
         run.emit("FlushBegin", b=self.bid, a=by, xs=[i.fid for i in items])
         mode = run.prog["kinds"][self.kind - 1].get("flush", "ok")
@@ -1081,6 +1096,7 @@ def make_debug_item(run, kind, fid, t):
         def on_done(_b, bid=bid):
             run.emit("FlushEnd", b=bid, a=0, u=0, v=VNONE)
             run.emit("BatchDone", b=bid, a=0 if _b._error is None else 1)
+            run._done(bid, _b)
         b.on_computed.subscribe(on_done)
     it.fid = fid
     run.obj_id[id(it)] = fid
